@@ -1440,8 +1440,6 @@ class AsType(Elemwise):
             return False
         # The predicate must not read a column whose values the cast changes
         dtypes = self.operand("dtypes")
-        if not isinstance(dtypes, dict):
-            return False
         predicate_columns = set()
         stack, seen = [parent.predicate], set()
         while stack:
@@ -1458,7 +1456,19 @@ class AsType(Elemwise):
                 predicate_columns.update(e.columns)
                 dependencies = [d for d in dependencies if d._name != self._name]
             stack.extend(dependencies)
-        return not (predicate_columns & set(dtypes))
+        meta = self.frame._meta
+        for col in predicate_columns:
+            target = dtypes.get(col) if isinstance(dtypes, dict) else dtypes
+            if target is None:
+                continue
+            try:
+                source = meta.dtypes[col] if meta.ndim == 2 else meta.dtype
+                if not np.can_cast(source, np.dtype(target), casting="safe"):
+                    return False
+            except Exception:
+                # extension / categorical / string dtypes: not known to be lossless
+                return False
+        return True
 
     def _simplify_up(self, parent, dependents):
         if isinstance(parent, Filter) and self._filter_passthrough_available(
